@@ -307,9 +307,28 @@ func c16Maps(r *report.Run, evals *int64) {
 		{"named map with methods", c16NamedMap{"a": 1, "s": "x"}},
 		{"typed named map with method", c16TypedNamedMap{"a": 1}},
 	}
+	anon := map[string]interface{}{
+		"Config": struct{ MaxSize int }{1},
+		"Limits": struct {
+			Label   string
+			MaxSize int
+		}{"l", 2},
+		"Deep": struct {
+			c16Inner
+			MaxSize int
+		}{c16Inner{Label: "d"}, 4},
+	}
+	envs = append(envs, struct {
+		name string
+		env  interface{}
+	}{"map with unnamed struct members", anon})
 	order := int64(1) << 40
 	for _, e := range envs {
-		for _, src := range []string{"a", "s", "f()", "b", "zz", "Size()", "Twice()", "Total()", "Size", "a + 1", "n"} {
+		srcs := []string{"a", "s", "f()", "b", "zz", "Size()", "Twice()", "Total()", "Size", "a + 1", "n"}
+		if e.name == "map with unnamed struct members" {
+			srcs = []string{"Config.MaxSize", "Limits.MaxSize", "Limits.Label", "Deep.MaxSize", "Deep.Label", "Config.MaxSize + Limits.MaxSize + Deep.MaxSize == 7", "Limits.MaxSize + Config.MaxSize == 3", `Deep.Label + Limits.Label == "dl"`}
+		}
+		for _, src := range srcs {
 			*evals++
 			order++
 			p, err := c16Compile(src, expr.Env(e.env))
@@ -323,6 +342,9 @@ func c16Maps(r *report.Run, evals *int64) {
 			if rerr != nil {
 				r.Report(report.Violation{Sub: "map-env", Kind: "accepted-but-unresolvable", Witness: src + " on " + e.name, Order: order, Detail: map[string]interface{}{"error": rerr.Error()}})
 				continue
+			}
+			if strings.Contains(src, "==") && out != true {
+				r.Report(report.Violation{Sub: "map-env", Kind: "wrong-member-resolved", Witness: src + " on " + e.name, Order: order, Detail: map[string]interface{}{"result": fmt.Sprint(out)}})
 			}
 			static := c16Static(src, e.env)
 			if static != nil && static.Kind() != reflect.Interface && reflect.TypeOf(out) != static {
@@ -376,3 +398,5 @@ func c16SpecialNames(r *report.Run, evals *int64) {
 		}
 	}
 }
+
+type c16Inner struct{ Label string }
